@@ -9,7 +9,7 @@ from ..model import body_stmts, canon, dotted, kwarg, norm, walk_no_nested
 from . import ilp, nbk
 from .c01 import rule_nullable_index
 from .c04 import array_layout
-from .common import assigned_value, else_part, enclosing, prog, resolve_local
+from .common import assigned_value, else_part, enclosing, prog, resolve_local, stores_to
 
 AVG = "avg_num_annotations_per_annotator"
 
@@ -201,6 +201,18 @@ def rule_kinds(ctx: Ctx):
                     it = L.iter
                     src = it.args[0] if isinstance(it, ast.Call) and dotted(it.func) == "enumerate" and it.args else it
                     names = [norm(x) for x in ast.walk(L.target) if isinstance(x, ast.Name)]
+                    # for a, b in zip(X, Y): each target takes the kind of an element of its own argument
+                    zc = it if isinstance(it, ast.Call) and dotted(it.func) == "zip" else (
+                        src if isinstance(it, ast.Call) and dotted(it.func) == "enumerate" and isinstance(src, ast.Call) and dotted(src.func) == "zip" else None)
+                    if zc is not None and e.id in names:
+                        tgt = L.target if zc is it else (L.target.elts[1] if isinstance(L.target, ast.Tuple) and len(L.target.elts) == 2 else None)
+                        if isinstance(tgt, ast.Tuple) and len(tgt.elts) == len(zc.args):
+                            for te, arg in zip(tgt.elts, zc.args):
+                                if isinstance(te, ast.Name) and te.id == e.id:
+                                    return "UNITARY" if kind_of(f, arg, depth + 1) == "VEC" else "?"
+                        if zc is not it and isinstance(L.target, ast.Tuple) and norm(L.target.elts[0]) == e.id:
+                            return "INDEX"
+                        return "?"
                     if e.id in names:
                         if isinstance(it, ast.Call) and dotted(it.func) == "enumerate" and names and names[0] == e.id:
                             return "INDEX"
@@ -214,6 +226,23 @@ def rule_kinds(ctx: Ctx):
             if len(vs) == 1:
                 return kind_of(f, vs[0], depth + 1)
             if e.id in f.params:
+                # parameter of a private helper: the kind every caller passes
+                if f.name.startswith("_") and not f.name.startswith("__") and not stores_to(f.node, e.id):
+                    kinds = set()
+                    idx = f.params.index(e.id)
+                    for g in M.all_functions():
+                        gl = p.flow(g) if not isinstance(g.node, ast.Lambda) else None
+                        if gl is None:
+                            continue
+                        for cs in gl.calls:
+                            if isinstance(cs.node, ast.Call) and any(t is f or t.qualname == f.qualname for t in cs.targets):
+                                off = 1 if (f.cls is not None and f.kind != "staticmethod" and isinstance(cs.node.func, ast.Attribute)) else 0
+                                a = next((k.value for k in cs.node.keywords if k.arg == e.id), None)
+                                if a is None and 0 <= idx - off < len(cs.node.args):
+                                    a = cs.node.args[idx - off]
+                                kinds.add(kind_of(g, a, depth + 1) if a is not None else "?")
+                    if len(kinds) == 1 and "?" not in kinds:
+                        return next(iter(kinds))
                 return "PARAM"
             return "?"
         return "?"
